@@ -736,7 +736,7 @@ func cmdC01(seed int64, tier, outDir string) {
 	c01Setup()
 	n, maxNodes := 1200, 40
 	if tier == "thorough" {
-		n, maxNodes = 40000, 120
+		n, maxNodes = 12000, 100
 	}
 	sum := NewSummary("C01", seed, tier)
 	sum.Rule = "type-directed programs of the value language (operators, unary, let, func with recursion, closures with 1..4 parameters and up to 3+ levels, if, switch, try/catch/throw, list/map literals, index, member access, methods and static functions of the modelled pool, map-field closures, currying; binders boosted inside call/method/literal arguments; <= 40 nodes quick, <= 120 thorough) x 3 argument tuples over ints, floats, strings, bools, lists, maps; implementation run with and without the optimizer. Distinct non-trivial: distinct program texts that generate without error, contain a binder inside a call/method/list/map argument or >= 2 closure levels, and whose three argument tuples do not all give the same observation"
